@@ -55,6 +55,18 @@ def setup_worker(ctx):
 
 
 def renaming(rng, defn):
+    """A renaming whose reading names do not collide with the generated reading struct of their own sensor
+    (sensor 't1' -> struct T1 with accessor T1(): a C++ identifier clash of the naming scheme, excluded from
+    the generator's name space in the same way, DESIGN 1.3)."""
+    for _ in range(20):
+        rho, srho, rrho = _renaming(rng, defn)
+        if not any(new_r in {srho[sn].title(), srho[sn].upper(), srho[sn]}
+                   for sn, m in rrho.items() for new_r in m.values()):
+            break
+    return rho, srho, rrho
+
+
+def _renaming(rng, defn):
     P = gen.pools()
     used = set(defn["state"] + defn["control"] + defn["calibration"] + [defn["dt"]])
     mode = rng.choice(["reverse", "random", "random"])
